@@ -117,6 +117,8 @@ func handObjects() []interface{} {
 		map[string][]int{"A": {1, 2}},
 		map[string]*Alpha{"A": {A: 7, B: "seven"}},
 		PtrEmbed{Base: nil, Extra: "nil-embedded"}, &PtrEmbed{Base: nil, Extra: "nil-embedded-ptr"},
+		// second values of types that already occur above: an answer must come from THIS object
+		OnlyMethods{5}, &OnlyMethods{6}, Gamma{X: 7, Y: 1}, &Gamma{X: 9, Y: 9}, Base{ID: 70, Title: "other"}, &Base{ID: 71}, Top{Name: "top2"}, Alpha{9, "nine", false},
 		Doc{Tracking: Tracking{Stamp: Stamp{ID: "trk", At: 5}, Source: "src"}, Record: Record{ID: "rec", Name: "rname"}, Author: Author{Name: "aname", Mail: "m@x"}, Title: "T", Lang: "en", Pages: 3},
 		&Doc{Tracking: Tracking{Stamp: Stamp{ID: "trk2", At: 6}}, Record: Record{ID: "rec2"}, Lang: "de", Draft: true},
 	}
